@@ -2,23 +2,13 @@ import MithrilModel.Proto
 import MithrilModel.Sha256
 import MithrilModel.CertModel
 import MithrilModel.Lottery
+import MithrilModel.PhiModel
 namespace Handlers.C04
-open Proto CertModel
+open Proto CertModel PhiModel
 
 def H : List UInt8 → List UInt8 := Sha256.hashL
 
 def asText (b : List UInt8) : String := String.ofList (b.map fun x => Char.ofNat x.toNat)
-
-/-- `fixed::types::U8F24::from_num(f64)`: nearest, ties to even, on the exact value; `none` = panic -/
-def u8f24OfF64 (bits : Nat) : Option Nat :=
-  match Lottery.f64ToRat bits with
-  | none => none
-  | some v =>
-    let scaled := v * ((2 ^ 24 : Nat) : Rat)
-    let fl := scaled.floor
-    let frac := scaled - (fl : Rat)
-    let r : Int := if frac < 1 / 2 then fl else if frac > 1 / 2 then fl + 1 else (if fl % 2 = 0 then fl else fl + 1)
-    if r < 0 || r ≥ 2 ^ 32 then none else some r.toNat
 
 def hexNat (s : String) : Option Nat := s.toList.foldlM (fun acc c => (hexDigit c).map (acc * 16 + ·)) 0
 
@@ -33,8 +23,11 @@ def parseEntity : Val → Option (Option Entity)
   | .l [.s "cbtx", e, b, o] => do pure (some (.cbtx (← e.nat?) (← b.nat?) (← o.nat?)))
   | _ => none
 
+/-- `oor`: a date outside the `i64` nanosecond range (`timestamp_nanos_opt() = None`), hashed as
+`unwrap_or_default() = 0` by `CertificateMetadata::compute_hash` -/
 def parseInt (v : Val) : Option Int :=
   match v with
+  | .s "oor" => some 0
   | .s t => if t.startsWith "n" then ((t.drop 1).toString.toNat?).map (fun n => -(n : Int)) else t.toNat?.map (fun n => (n : Int))
   | _ => none
 
@@ -62,12 +55,12 @@ def certReq (r : Req) : Option String := do
   let avk ← bytesArg r "avk"
   let entity ← parseEntity (← r.get? "entity")
   let sig ← bytesArg r "sig"
-  match u8f24OfF64 phiBits with
+  match some (phiOfF64 phiBits) with
   | none => pure "panic"
-  | some phiFixed =>
+  | some phi =>
     let c : Cert := {
       previousHash := prev, epoch := epoch,
-      metadata := { network := net, version := ver, params := { k := k, m := m, phiFixed := phiFixed },
+      metadata := { network := net, version := ver, params := { k := k, m := m, phi := phi },
                     initiatedNs := init, sealedNs := sealed, signers := signers },
       pm := pm, signedMessage := signed, avkHex := avk, entity := entity, sigHex := sig,
       ancProver := none, ancVerifier := none }
